@@ -517,7 +517,26 @@ def _sym_hooks(sym):
             tag(env)
             return r
         return None
-    return {"ext:*.unpack": unpack, "ext:*.unpack_from": unpack, "ext:*.from_bytes": from_bytes}
+    def unpack_from(itp, recv, a, k, env, d, e):
+        # struct.unpack_from(fmt, buffer, offset=0): unpack of the calcsize(fmt) bytes of the buffer starting at offset
+        import struct as _struct
+        from ..symbuf import Buf, add
+        if recv[1].endswith("Struct()") and recv[2] and recv[2][0][0] == "c" and len(a) >= 1:
+            a = [recv[2][0]] + list(a)
+        off = a[2] if len(a) > 2 else k.get("offset", ("c", 0))
+        if len(a) >= 2 and a[0][0] == "c" and isinstance(a[0][1], str) and a[1][0] == "bufobj" and off[0] == "c" and isinstance(off[1], int) and off[1] >= 0:
+            try:
+                size = _struct.calcsize(a[0][1])
+            except _struct.error:
+                return None
+            buf = a[1][1]
+            sym.slices.append((buf.copy(), {1: off[1]} if off[1] else {}, {1: off[1] + size}))
+            view = Buf(buf.sid, add(buf.start, {1: off[1]} if off[1] else {}), add(buf.start, {1: off[1] + size}))
+            r = sym.decode_unpack(a[0][1], ("bufobj", view))
+            tag(env)
+            return r
+        return unpack(itp, recv, a, k, env, d, e)
+    return {"ext:*.unpack": unpack, "ext:*.unpack_from": unpack_from, "ext:*.from_bytes": from_bytes}
 
 
 def sym_receive(repo, enabled=True, up_raises=False, method="receive", scripted=None):
